@@ -854,7 +854,60 @@ def c20(ctx):
     ctx.assumptions += ["xsd:float results are judged by class and sign only (both roundings are faithful readings)", "64-bit isize / usize"]
 
 
+def c16(ctx):
+    dev = build()
+    rel = build(release=True)
+    # (1) the design rule: per-element work done by the running frame keeps the stack independent of the size ...
+    mc = Bg(lambda: model_check(ctx, "MC_Stack", workers=2, timeout=300))
+    # ... and the model can fail: one call per element (no tail-call elimination) is refuted
+    out = tlc(ctx, "MC_Stack", cfg="MC_Stack_recursive", workers=2, timeout=300, tag="MC_Stack_recursive")
+    if "Invariant StackIndependentOfSize is violated" not in out:
+        raise ToolError("Stack.tla no longer refutes the recursive style: the invariant is vacuous\n" + out[-1500:])
+    ctx.notes.append("Stack.tla: Style=recursive is refuted by TLC (StackIndependentOfSize), Style=loop satisfies it")
+    # (2) peak stack use of the real operations, measured by stack painting on 2 MiB threads in child processes
+    sizes = "2000,20000" if ctx.quick() else "5000,50000,500000,1000000"
+    tr = os.path.join(ctx.traces, "stack.ndjson")
+    parts = []
+    for prof, binary in (("dev", dev), ("release", rel)):
+        part = os.path.join(ctx.traces, "stack_%s.ndjson" % prof)
+        sv(binary, ["stack", "--sizes", sizes, "--out", part], ctx=ctx, timeout=20000)
+        parts.append(part)
+    with open(tr, "w") as f:
+        for part in parts:
+            f.write(open(part).read())
+    trace = read_trace(tr)
+    mism = trace_check(ctx, "Trace_Stack", tr, timeout=3000)
+    bad = set()
+    for line, fields in mism:
+        e = trace[line - 1]
+        bad.add(line)
+        code = fields[0]
+        if e["ev"] == "Stack":
+            first = next(x for x in trace if x["ev"] == "Stack" and x["op"] == e["op"] and x["profile"] == e["profile"])
+            detail = "%s: %s [%s] uses %d bytes of stack for %d elements but %d bytes for %d" % (code, e["op"], e["profile"], first["peak"], first["n"], e["peak"], e["n"])
+            key = "%s/%s/%s" % (code, e["op"], e["profile"])
+        else:
+            inp = e.get("input", {})
+            detail = "%s: %s [%s] with %s elements: %s" % (code, inp.get("op"), inp.get("profile"), inp.get("n"), e.get("why"))
+            key = "%s/%s/%s" % (code, inp.get("op"), inp.get("profile"))
+        ctx.violations.append({"key": key, "detail": detail, "event": e, "trace": tr, "line": line})
+    ctx.traces_validated += len(trace) - len(bad)
+    for e in trace:
+        if e["ev"] == "Stack":
+            ctx.distinct.add(h([e["op"], e["profile"], e["n"]]))
+    ops = sorted(set(e["op"] for e in trace if e["ev"] == "Stack"))
+    ctx.samples += [{"op": e["op"], "profile": e["profile"], "elements": e["n"], "peak_stack_bytes": e["peak"], "ms": e["ms"]} for e in trace[1:len(trace):max(1, len(trace) // 8)] if e["ev"] == "Stack"]
+    mc.join()
+    ctx.rule = ("Stack.tla: the frames in use may depend on the nesting depth of the data, never on the number of elements (TLC: holds for the loop style, refuted for one call per element). "
+                "Trace_Stack.tla judges measurements of the real code: %d operations (pattern queries hitting each of the 5 matching iterators through closure matchers on Fast/Light datasets and graphs, insert / remove / retain, "
+                "serialisers and parsers of all formats on documents, on one literal with that many escaped characters, on one RDF list with that many items, on that many named graphs, SPARQL GRAPH ?g / FILTER / ORDER BY / DISTINCT+UNION, "
+                "RDFC-1.0, isomorphism) x sizes %s x {dev, release}; each in a child process on a thread with a 2 MiB stack painted beforehand, the high-water mark read back afterwards. "
+                "A dead child is a violation; the peak at a larger size may exceed the peak at the smallest by at most 16 KiB. distinct = (operation, profile, size)" % (len(ops), sizes))
+    ctx.assumptions += ["operations whose running time is quadratic in the data (pretty serialisers, GRAPH ?g over a Vec dataset) run at a tenth of the size", "Linux, x86-64: the thread stack grows downwards and is mapped contiguously"]
+
+
 FAMILIES = {
+    "C16": c16,
     "C20": c20,
     "C19": c19,
     "C12": c12,
